@@ -79,7 +79,9 @@ def absDiff (a b : Nat) : Nat := if a < b then b - a else a - b
 
 def dedup (l : List Nat) : List Nat := l.foldl (fun acc x => if acc.contains x then acc else acc ++ [x]) []
 
-def run (op impl : String) : Ans :=
+def dedupS (l : List String) : List String := l.foldl (fun acc x => if acc.contains x then acc else acc ++ [x]) []
+
+def runR (op impl : String) : Ans :=
   let kv := parseKV op
   match lookNat kv "cp", lookNat kv "stay", lookNat kv "th", lookNat kv "ac", lookNat kv "pc",
         (look kv "ev").bind parseEvents with
@@ -122,5 +124,218 @@ def run (op impl : String) : Ans :=
             tags := tags }
     | _, _, _ => { model := "unparsable-impl", verdict := "ok" }
   | _, _, _, _, _, _ => { model := "bad-op", verdict := "skip" }
+
+/-! ### `m` ops: module level with reload histories
+
+  `m sc=<scale>;steps=<step>|<step>|...`
+    load step    `L<w>~<prod>:<rule>+<rule>~<prod>:...`   w = 0 well-formed file, other letter = malformed kind
+                 rule = `name.cp.stay.th.ac.pc.sel.stop.sign`  (seconds; stop 0 REQ_HEADER_SET, 1 CLOSE, 2 FINISH)
+    request step `Q<ms>~<prod>~<sel>~<h>~<c>~<p>~<q1>~<q2>`    `-` = absent, `_` = empty value
+  impl = `o=<outcome per step>;len=<prod/name:access:prison,...>;t=<b>-<a>,...` (t: request steps only)
+  outcome: load `ok|err`; request `<G|C|F><names of REQ_HEADER_SET rules that denied, ascending, '.'-separated>` -/
+
+structure RuleX where
+  spec : RuleSpec
+  stopc : Nat
+
+def parseRuleX (s : String) : Option RuleX :=
+  match s.splitOn "." with
+  | [n, cp, st, th, ac, pc, sel, stop, sg] => do
+    let n ← n.toNat?; let cp ← cp.toInt?; let st ← st.toInt?; let th ← th.toInt?
+    let ac ← ac.toInt?; let pc ← pc.toInt?; let stop ← stop.toNat?; let sg ← sg.toNat?
+    pure { spec := { name := n, cp := cp, stay := st, th := th, ac := ac, pc := pc,
+                     needSel := sel == "1", stop := stop != 0, sign := sg }, stopc := stop }
+  | _ => none
+
+inductive MStep where
+  | load (wf : Bool) (conf : List (Nat × List RuleX))
+  | req (ms prod : Nat) (sel : Bool) (h c : String) (p : Nat) (q1 q2 : String)
+
+def parseStep (s : String) : Option MStep :=
+  if s.startsWith "L" then
+    match ((s.drop 1).toString).splitOn "~" with
+    | w :: prods => do
+      let conf ← prods.mapM fun ps =>
+        match ps.splitOn ":" with
+        | [p, rs] => do
+          let p ← p.toNat?
+          let rules ← (if rs == "" then some [] else (rs.splitOn "+").mapM parseRuleX)
+          pure (p, rules)
+        | _ => none
+      pure (.load (w == "0") conf)
+    | _ => none
+  else if s.startsWith "Q" then
+    match ((s.drop 1).toString).splitOn "~" with
+    | [ms, prod, sel, h, c, p, q1, q2] => do
+      let ms ← ms.toNat?; let prod ← prod.toNat?; let p ← p.toNat?
+      pure (.req ms prod (sel == "1") h c p q1 q2)
+    | _ => none
+  else none
+
+/-- sub-expressions of `^/u/(\d+)/(\w+)` on the harness' path table -/
+def pathKey : Nat → Option String
+  | 0 => some "12,ab" | 1 => some "12,cd" | 2 => some "13,ab" | 4 => some "12,ab" | _ => none
+
+def valOf (s : String) : String := if s == "_" then "" else s
+
+/-- the signed data of the four AccessSignConf variants (none = Sign returns an error) -/
+def keyStr (variant : Nat) (h c : String) (p : Nat) (q1 q2 : String) : Option String :=
+  match variant with
+  | 0 => if h == "-" || h == "_" then none else some ("0#" ++ h)
+  | 1 => if h == "-" || h == "_" || c == "-" then none else some ("1#" ++ h ++ "&" ++ valOf c)
+  | 2 => (pathKey p).map ("2#" ++ ·)
+  | _ =>
+    let v := (if q1 == "-" then "" else valOf q1) ++ (if q2 == "-" then "" else valOf q2)
+    if v == "" then none else some ("3#" ++ v)
+
+def idxOf (l : List String) (s : String) : Nat := (l.findIdx? (· == s)).getD l.length
+
+def lookStop (conf : List (Nat × List RuleX)) (p n : Nat) : Nat :=
+  match conf.find? (·.1 == p) with
+  | some (_, rs) => ((rs.find? (·.spec.name == n)).map (·.stopc)).getD 0
+  | none => 0
+
+def sortNat (l : List Nat) : List Nat := l.foldl (fun acc x => (acc.filter (· < x)) ++ [x] ++ (acc.filter (· ≥ x))) []
+
+def outcomeStr (stopped : Bool) (denied : List Nat) (stopc : Nat) : String :=
+  let pass := if stopped then denied.dropLast else denied
+  (if stopped then (if stopc == 2 then "F" else "C") else "G") ++ ".".intercalate ((sortNat pass).map toString)
+
+/-- ideal module: per (product, rule, key) the ideal one-key limiter, no dictionaries -/
+structure IRule where
+  x : RuleX
+  cfg : Cfg
+  ks : List (Key × KS) := []
+
+def ksFind (l : List (Key × KS)) (k : Key) : KS := ((l.find? (·.1 == k)).map (·.2)).getD .idle
+def ksSet (l : List (Key × KS)) (k : Key) (v : KS) : List (Key × KS) := (k, v) :: l.filter (·.1 != k)
+
+def iProcess (keyOf : Nat → Bool → Option Key) (sel : Bool) (t : Nat) : List IRule → Bool × List Nat × List IRule × List (Nat × Nat)
+  | [] => (false, [], [], [])
+  | r :: rs =>
+    if r.x.spec.needSel && !sel then
+      let y := iProcess keyOf sel t rs; (y.1, y.2.1, r :: y.2.2.1, y.2.2.2)
+    else match keyOf r.x.spec.sign r.x.spec.needSel with
+      | none => let y := iProcess keyOf sel t rs; (y.1, y.2.1, r :: y.2.2.1, y.2.2.2)
+      | some k =>
+        let st := ksFind r.ks k
+        let o := specStep r.cfg st t
+        let cm := specCmps r.cfg st t
+        let r' := { r with ks := ksSet r.ks k o.2 }
+        if o.1 && r.x.spec.stop then (true, [r.x.spec.name], r' :: rs, cm)
+        else
+          let y := iProcess keyOf sel t rs
+          (y.1, (if o.1 then [r.x.spec.name] else []) ++ y.2.1, r' :: y.2.2.1, cm ++ y.2.2.2)
+
+structure MState where
+  tb : Table := []
+  conf : List (Nat × List RuleX) := []
+  itb : List (Nat × List IRule) := []
+  outs : List String := []      -- model outcomes (reverse order)
+  iouts : List String := []     -- ideal outcomes (reverse order)
+  cmps : List (Nat × Nat) := []
+  evicted : Bool := false
+  reloaded : Bool := false
+  ri : Nat := 0                 -- index of the next request
+
+def mStep (scale : Nat) (keys : List String) (times : List (Nat × Nat)) (ms : MState) : MStep → MState
+  | .load wf conf =>
+    let sconf := conf.map fun pr => (pr.1, pr.2.map (·.spec))
+    if confValid wf sconf then
+      let tb := reload scale ms.tb wf sconf
+      let itb : List (Nat × List IRule) := conf.map fun pr =>
+        (pr.1, pr.2.map fun x =>
+          let old := ((ms.itb.find? (·.1 == pr.1)).bind fun o => o.2.find? (·.x.spec.name == x.spec.name))
+          let r := mkRule scale none x.spec
+          { x := x, cfg := r.cfg, ks := (old.map (·.ks)).getD [] })
+      { ms with tb := tb, conf := conf, itb := itb, outs := "ok" :: ms.outs, iouts := "ok" :: ms.iouts,
+                reloaded := !ms.tb.isEmpty || ms.reloaded }
+    else { ms with outs := "err" :: ms.outs, iouts := "err" :: ms.iouts }
+  | .req _ prod sel h c p q1 q2 =>
+    let t := (times.getD ms.ri (0, 0)).1
+    let keyOf : Nat → Bool → Option Key := fun v ns =>
+      (keyStr v h c p q1 q2).map fun k => idxOf keys ((if ns then "S" else "T") ++ k)
+    let q : ReqM := { product := prod, sel := sel, key := keyOf, t := t }
+    let r := handle ms.tb q
+    let stopc := if r.1.stopped then
+        (let n := r.1.denied.getLast?.getD 0
+         -- the stopping rule belongs to the global product if the global pass stopped, else to the request's
+         let inGlobal := (onProduct ms.tb 0 q).1.stopped
+         lookStop ms.conf (if inGlobal then 0 else prod) n) else 0
+    -- ideal
+    let ig := match ms.itb.find? (·.1 == 0) with
+      | some (_, rs) => iProcess keyOf sel t rs
+      | none => (false, [], [], [])
+    let itb1 := ms.itb.map fun pr => if pr.1 == 0 && (ms.itb.find? (·.1 == 0)).isSome then (pr.1, ig.2.2.1) else pr
+    let ip := if ig.1 then (false, [], [], []) else
+      match itb1.find? (·.1 == prod) with
+      | some (_, rs) => iProcess keyOf sel t rs
+      | none => (false, [], [], [])
+    let itb2 := if ig.1 then itb1 else
+      itb1.map fun pr => if pr.1 == prod && (itb1.find? (·.1 == prod)).isSome then (pr.1, ip.2.2.1) else pr
+    let istopped := ig.1 || ip.1
+    let idenied := ig.2.1 ++ ip.2.1
+    let istopc := if istopped then lookStop ms.conf (if ig.1 then 0 else prod) (idenied.getLast?.getD 0) else 0
+    { ms with tb := r.2, itb := itb2,
+              outs := outcomeStr r.1.stopped r.1.denied stopc :: ms.outs,
+              iouts := outcomeStr istopped idenied istopc :: ms.iouts,
+              cmps := r.1.cmps ++ ig.2.2.2 ++ ip.2.2.2 ++ ms.cmps,
+              evicted := ms.evicted || !r.1.ev.isEmpty, ri := ms.ri + 1 }
+
+def lensStr (tb : Table) : String :=
+  let ents := tb.foldl (fun acc pr => acc ++ pr.2.map fun r => (pr.1, r.name, r.st.access.length, r.st.prison.length)) []
+  let sorted := ents.foldl (fun acc e => (acc.filter fun x => x.1 < e.1 || (x.1 == e.1 && x.2.1 < e.2.1)) ++ [e] ++
+                                         (acc.filter fun x => !(x.1 < e.1 || (x.1 == e.1 && x.2.1 < e.2.1)))) []
+  if sorted.isEmpty then "-" else
+  ",".intercalate (sorted.map fun e => toString e.1 ++ "/" ++ toString e.2.1 ++ ":" ++ toString e.2.2.1 ++ ":" ++ toString e.2.2.2)
+
+def runM (op impl : String) : Ans :=
+  let kv := parseKV op
+  match lookNat kv "sc", (look kv "steps").bind (fun s => (s.splitOn "|").mapM parseStep) with
+  | some sc, some steps =>
+    let ikv := parseKV impl
+    match look ikv "o", look ikv "len", (look ikv "t").bind parseTimes with
+    | some io, some _, some ts =>
+      let nreq := (steps.filter fun s => match s with | .req .. => true | _ => false).length
+      if ts.length != nreq then { model := "impl-shape", verdict := "ok" } else
+      let keys := dedupS (steps.foldl (fun acc s => match s with
+        | .req _ _ _ h c p q1 q2 =>
+          let ks := [0, 1, 2, 3].filterMap fun v => keyStr v h c p q1 q2
+          acc ++ ks.map ("S" ++ ·) ++ ks.map ("T" ++ ·)
+        | _ => acc) [])
+      let fin := steps.foldl (mStep sc keys ts) {}
+      let maxW := ts.foldl (fun m t => max m (t.2 - t.1)) 0
+      let slack := 4 * maxW + 2000
+      let tight := fin.cmps.any fun p => absDiff p.1 p.2 ≤ slack
+      let mouts := ",".intercalate fin.outs.reverse
+      let iouts := ",".intercalate fin.iouts.reverse
+      let anyDeny := fin.outs.any fun o => o.startsWith "C" || o.startsWith "F" || (o.startsWith "G" && o.length > 1)
+      let nload := (steps.filter fun s => match s with | .load .. => true | _ => false).length
+      let tags := ["m"] ++ (if anyDeny then ["nt", "m-jail"] else []) ++ (if fin.reloaded then ["m-reload"] else []) ++
+        (if fin.outs.contains "err" then ["m-rejected"] else []) ++ (if fin.evicted then ["m-evict"] else []) ++
+        (if nload > 2 then ["m-multireload"] else [])
+      if tight then { model := impl, verdict := "skip", tags := ["jitter"] }
+      else
+        let verdict :=
+          if fin.evicted then "ok"            -- the ideal machine has no capacity: judged by correspondence only
+          else if io == iouts then "ok"
+          else
+            -- first differing step
+            let pairs := (io.splitOn ",").zip fin.iouts.reverse
+            match pairs.find? (fun p => p.1 != p.2) with
+            | some (a, b) =>
+              let kind :=
+                if a == "ok" || a == "err" || b == "ok" || b == "err" then "reload-verdict"
+                else if a.length > b.length || (b.startsWith "G" && !a.startsWith "G") then "deny-without-jail"
+                else if a.length < b.length || (a.startsWith "G" && !b.startsWith "G") then "no-jail"
+                else "wrong-action-or-rule"
+              "FAIL:module-" ++ kind ++ (if fin.reloaded then "-after-reload" else "")
+            | none => "FAIL:module-outcome-count"
+        { model := "o=" ++ mouts ++ ";len=" ++ lensStr fin.tb ++ ";t=" ++ (look ikv "t").getD "", verdict := verdict, tags := tags }
+    | _, _, _ => { model := "unparsable-impl", verdict := "ok" }
+  | _, _ => { model := "bad-op", verdict := "skip" }
+
+def run (op impl : String) : Ans :=
+  if op.startsWith "m " then runM (op.drop 2).toString impl else runR op impl
 
 end BfeVerif.C53
